@@ -99,6 +99,12 @@ func pathOf(class string) string {
 		return "/app/x?next=/fwd/1&img=/static/logo.png"
 	case "png":
 		return "/static/logo.png"
+	case "pngx":
+		// starts like something the passthrough pattern *.png matches, but goes on: an ordinary path
+		return "/static/logo.png/delete"
+	case "fwdnl":
+		// an always-forward path with an (encoded) line break in it
+		return "/fwd/a%0Ab"
 	}
 	return "/"
 }
@@ -241,8 +247,16 @@ func run1(t *testing.T, c Case) (res Result) {
 		proxy := lfshttp.NewProxyServer(N.Store)
 		proxy.Target = "app.internal:8080"
 		proxy.DBName = tracked
-		proxy.Passthroughs = []*regexp.Regexp{regexp.MustCompile(`^/pass/.*$`), regexp.MustCompile(`^.*\.png$`)}
-		proxy.AlwaysForward = []*regexp.Regexp{regexp.MustCompile(`^/fwd/.*$`), regexp.MustCompile(`^/pass/fwd$`)}
+		// the patterns are compiled from globs the way cmd/litefs compiles the configuration file's
+		mustGlob := func(g string) *regexp.Regexp {
+			re, err := lfshttp.CompileMatch(g)
+			if err != nil {
+				panic(err)
+			}
+			return re
+		}
+		proxy.Passthroughs = []*regexp.Regexp{mustGlob("/pass/*"), mustGlob("*.png")}
+		proxy.AlwaysForward = []*regexp.Regexp{mustGlob("/fwd/*"), mustGlob("/pass/fwd")}
 		proxy.HTTPTransport = &http.Transport{
 			DisableKeepAlives: true,
 			DialContext: func(ctx context.Context, network, addr string) (net.Conn, error) {
@@ -318,7 +332,7 @@ func run1(t *testing.T, c Case) (res Result) {
 
 		isRead := c.Method == "GET" || c.Method == "HEAD"
 		pass := c.Path == "pass" || c.Path == "both" || c.Path == "png"
-		alwaysFwd := c.Path == "fwd" || c.Path == "both"
+		alwaysFwd := c.Path == "fwd" || c.Path == "both" || c.Path == "fwdnl"
 		health := c.Path == "health" && c.Method == "GET" && !pass
 		treatedAsRead := isRead && !alwaysFwd
 		res.Class = fmt.Sprintf("%d/reached=%d", resp.StatusCode, len(reached))
@@ -407,7 +421,7 @@ func TestCheck(t *testing.T) {
 	var cases []Case
 	for _, role := range []string{"primary", "replica", "orphan"} {
 		for _, m := range []string{"GET", "HEAD", "POST", "PUT", "PATCH", "DELETE", "OPTIONS"} {
-			for _, p := range []string{"plain", "pass", "fwd", "both", "health", "query", "png"} {
+			for _, p := range []string{"plain", "pass", "fwd", "both", "health", "query", "png", "pngx", "fwdnl"} {
 				for _, ck := range []string{"absent", "malformed", "behind", "equal", "ahead1", "far"} {
 					if role == "orphan" && ck != "absent" && ck != "far" && ck != "malformed" {
 						continue // no database on an orphan: cookie relations are meaningless
